@@ -334,7 +334,7 @@ func Main(args []string) error {
 			np := project.Pair(t, loopMS)
 			e := tr.E{"ev": "mpd", "now": np[:], "st": r.Status, "type": "", "pt": []int64{0, 0}, "hasPt": false, "dig": "", "S": [][]int64{},
 				"hasSn": false, "snp": []int64{0, 0}, "tmplD": 0, "tmplTS": 1, "atoDecl": 0, "tsbdDecl": -1, "astOk": false, "mpdur": -1,
-				"hasMup": false, "rel": fmt.Sprint(t)}
+				"hasMup": false, "rel": fmt.Sprint(t), "pids": []string{"", ""}}
 			var media string
 			var entries [][2]int64 // expanded (t, d) for URL construction only
 			if r.Status == 200 {
@@ -344,6 +344,9 @@ func Main(args []string) error {
 					e["parseErr"] = err.Error()
 				} else {
 					e["type"] = m.Type
+					if np := len(m.Periods); np > 0 { // ids of the oldest and the newest listed Period
+						e["pids"] = []string{m.Periods[0].ID, m.Periods[np-1].ID}
+					}
 					e["dig"] = project.ContentDigest(r.Body)
 					if pt, err := project.DateMS(m.PublishTime); err == nil {
 						pp := project.Pair(pt-cs.ast*1000, loopMS)
@@ -401,6 +404,20 @@ func Main(args []string) error {
 								for x := 0; x <= s.R; x++ {
 									entries = append(entries, [2]int64{cur, int64(s.D)})
 									cur += int64(s.D)
+								}
+							}
+							// multi-period: the timelines of the later Periods follow (each starts with an explicit @t); used only to
+							// tell where an MPD changed (C05), the per-Period structure is C06's
+							for pi := 1; pi < len(m.Periods) && cs.periods > 0; pi++ {
+								if as2 := m.FindAS(pi, ct, rt.ID); as2 != nil && as2.SegmentTemplate != nil && as2.SegmentTemplate.Timeline != nil {
+									for _, s := range as2.SegmentTemplate.Timeline.S {
+										ent := []int64{0, 0, 0, int64(s.D), int64(s.R)}
+										if s.T != nil {
+											tp := project.Pair(int64(*s.T), rt.L)
+											ent[0], ent[1], ent[2] = 1, tp[0], tp[1]
+										}
+										raw = append(raw, ent)
+									}
 								}
 							}
 							e["S"] = raw
